@@ -169,7 +169,7 @@ def _run(sx, L, types, max_size, ops_allowed, kinds, DataContainer, Attribute):
     if not oob("after creation"):
         return
     nops = 1 + sx.choice("nops", L)
-    ops = ops_allowed or ["set", "inplace", "append", "extend", "extend_container", "clear", "as_array", "delete"]
+    ops = ops_allowed or ["set", "inplace", "alias", "append", "extend", "extend_container", "clear", "as_array", "delete"]
     for step in range(nops):
         op = _pick(sx, "op%d" % step, ops)
         if op == "set":
@@ -224,6 +224,31 @@ def _run(sx, L, types, max_size, ops_allowed, kinds, DataContainer, Attribute):
                 cur[0] = nv
                 a[k] = list(cur)
             model[k] = list(cur)
+        elif op == "alias":
+            # the same vector OBJECT written at two entries, then changed through a read of the first one (and through the
+            # caller's own reference): the second entry must keep its value
+            if arity == 1 or tname in ("str", "bool", "complex") or size < 2:
+                sx.assume(False)    # (numpy complex scalars are not a registered attribute type: vectors of complex are outside)
+            k1 = int(sx.int("k%d" % step, 0, size - 1))
+            k2 = (k1 + 1) % size
+            base = dict(int=[1, 2], float=[1.5, 2.5], complex=[1j, 2j])[tname][:arity]
+            nv = dict(int=5, float=5.5, complex=5j)[tname]
+            from mouette.geometry import Vec
+            for nm, a in (("sparse", a_s), ("dense", a_d)):
+                shared = Vec(np.array(base))
+                a[k1] = shared
+                a[k2] = shared
+                x = a[k1]
+                x[0] = nv
+                sx.check(_eq(a[k2], base), "changing a value obtained by reading one entry leaves every other entry unchanged (%s, same "
+                         "vector object written at both entries)" % nm + tag, detail="index %d now reads %r" % (k2, a[k2]))
+                shared[1] = nv
+                sx.check(_eq(a[k2], base), "changing the caller's vector after writing it leaves the stored entries unchanged (%s)" % nm + tag,
+                         detail="index %d now reads %r" % (k2, a[k2]))
+                a[k1] = list(base)
+                a[k2] = list(base)
+            model[k1] = list(base)
+            model[k2] = list(base)
         elif op == "append":
             cs.append(size)
             cd.append(size)
@@ -308,7 +333,7 @@ def obligations(tier):
             obs.append(Ob("hist2-" + t, history(2, [t], max_size=1), covers=COVERS, split=9,
                           note="all histories of <=2 operations on a container of initial size 1, type " + t))
         obs.append(Ob("hist3-float", history(3, ["float"], max_size=1, kinds=["float", "str"],
-                                             ops_allowed=["set", "inplace", "append", "extend_container", "clear"]),
+                                             ops_allowed=["set", "inplace", "alias", "append", "extend_container", "clear"]),
                       covers=COVERS, split=7,
                       note="histories of <=3 operations {set, in-place update, append, += container, clear} on float attributes"))
     else:
